@@ -104,6 +104,12 @@ def build_pair(rq, an, v, byname, rng):
     if a["hasExp"]:
         ans.append(ExperimentalResultAVP([VendorIdAVP(10415), ExperimentalResultCodeAVP(bytes(a["rc"]))]))
     ans.refresh()
+    # the request as peers send it: P set or cleared, possibly a retransmission (T); the answer as handlers build it: the typed
+    # object itself or a copy() of a prepared template
+    how = rng.randrange(6)
+    req.header.flags = bytes([(0x80, 0xC0, 0x80, 0xC0, 0x90, 0xD0)[how]])
+    if how in (2, 3) and hasattr(ans, "copy"):
+        ans = ans.copy()
     return req, ans
 
 
